@@ -177,6 +177,12 @@ func HostileFilter(depth int) *rapid.Generator[bson.D] {
 				for j, m := 0, rapid.IntRange(1, 2).Draw(t, "nvn"); j < m; j++ {
 					ops = append(ops, NearValidExpr().Draw(t, "nv"))
 				}
+				if rapid.IntRange(0, 999).Draw(t, "tail")%4 == 1 {
+					// an operator that holds for every document first, so
+					// that evaluation reaches an odd key behind it
+					ops = append(bson.D{{Key: "$ne", Value: "never-stored"}}, ops...)
+					ops = append(ops, bson.E{Key: rapid.SampledFrom(oddOperatorKeys).Draw(t, "oddk"), Value: boundaryNumber().Draw(t, "oddv")})
+				}
 				d = append(d, bson.E{Key: rapid.SampledFrom([]string{"a", "b", "c", "a.b", "a.0", "_id"}).Draw(t, "nvp"), Value: ops})
 			default:
 				ops := bson.D{}
@@ -203,6 +209,10 @@ func HostileFilter(depth int) *rapid.Generator[bson.D] {
 		return d
 	})
 }
+
+// oddOperatorKeys: keys that may follow a valid operator inside an operator
+// document.
+var oddOperatorKeys = []string{"", "", "x", "$", "$$", "$unknown", "\x00", "a.b", "$ne"}
 
 // HostileSchema draws a $jsonSchema-like document.
 func HostileSchema(depth int) *rapid.Generator[bson.D] {
@@ -307,6 +317,9 @@ func HostileProjection() *rapid.Generator[bson.D] {
 				v = rapid.SampledFrom([]interface{}{int32(1), int32(0), true, false, int64(1), float64(0)}).Draw(t, "flag")
 			default:
 				v = HostileValue(1).Draw(t, "pv")
+			}
+			if od, ok := v.(bson.D); ok && len(od) == 1 && rapid.IntRange(0, 999).Draw(t, "ptail")%4 == 1 {
+				v = append(bson.D{od[0]}, bson.E{Key: rapid.SampledFrom(oddOperatorKeys).Draw(t, "poddk"), Value: int32(1)})
 			}
 			ppath := rapid.SampledFrom(HostilePaths).Draw(t, "pp")
 			if rapid.Bool().Draw(t, "pplain") {
